@@ -202,6 +202,13 @@ fn hostile(rng: &mut SRng, t: &Truth, mode: &str, ty: &RepairRequestType, histor
             out.push(ser(&RepairResponse::Shred(fake, t.blk.shreds[s][i].as_shred().clone())));
             let other_block = (Slot::new(t.blk.slot + 1), t.id().1);
             out.push(ser(&RepairResponse::Nack(RepairRequestType::LastSliceRoot(other_block))));
+            // NACKs nobody asked for, naming requests about the true block, then the genuine answer to them
+            let s2 = rng.random_range(0..=t.last());
+            let i2 = rng.random_range(0..64);
+            let named = RepairRequestType::Shred(t.id(), slice_index(s2), ShredIndex::new(i2).unwrap());
+            out.push(ser(&RepairResponse::Nack(named.clone())));
+            out.push(ser(&RepairResponse::Nack(RepairRequestType::SliceRoot(t.id(), slice_index(s2)))));
+            out.push(ser(&RepairResponse::Shred(named, t.blk.shreds[s2][i2].as_shred().clone())));
         }
         "replay-valid" => {
             if let Some(h) = honest {
@@ -290,6 +297,7 @@ async fn requester_run(ctx: &mut Ctx, rng: &mut SRng, directed: Option<&'static 
     let cfg = json!({"directed": directed, "n": n, "stakes": stakes, "slot": slot, "leader": leader, "slices": nslices, "requester": requester,
                      "personas": personas.iter().map(|(v, (p, m))| format!("{v}:{p:?}{}", if m.is_empty() { String::new() } else { format!("{m:?}") })).collect::<Vec<_>>()});
     let net = NetHandle::new();
+    net.0.lock().unwrap().max_datagrams = Some(300_000);
     // slow / duplicating honest personas are realised by the delivery policy
     let slow: Vec<usize> = personas.iter().filter(|(_, (p, _))| *p == Persona::HonestSlow).map(|(v, _)| *v).collect();
     let dup: Vec<usize> = personas.iter().filter(|(_, (p, _))| *p == Persona::HonestDuplicating).map(|(v, _)| *v).collect();
@@ -533,6 +541,9 @@ async fn requester_run(ctx: &mut Ctx, rng: &mut SRng, directed: Option<&'static 
         if *h != truth.blk.hash {
             ctx.violation("C14 repair announced a block whose hash differs from the requested identifier".to_string(), format!("{} vs {}", hex(&h[..6]), hex(&truth.blk.hash[..6])), wit(json!(null)));
         }
+    }
+    if net.0.lock().unwrap().capped {
+        ctx.count("requester-runs-that-hit-the-datagram-cap");
     }
     if let Some(sl) = *beyond.lock().unwrap() {
         ctx.violation(
